@@ -128,6 +128,13 @@ def edit_cases():
     out.append(dict(tag="E10-prepend-and-remove-listed-first", eqs=["d/dt * r = -r/tau + k*rr"], vars={"r": "output(0.1)", "tau": 2.0, "k": 1.0, "rr": 2.0},
                     edit=OrderedDict([("prepend", ""), ("append", "+ rr"), ("remove", ["+ k*rr"]), ("replace", {"tau": "(2.0*tau)"})]),
                     expected_vars=["r", "tau", "rr"]))
+    # `add` next to other edits: the edits rewrite the PARENT's equations only, the added equations are taken as written
+    out.append(dict(tag="E11-add-with-replace-of-a-shared-term", eqs=["d/dt * r = -r/tau + k"], vars={"r": "output(0.1)", "tau": 2.0, "k": 1.0},
+                    edit=OrderedDict([("replace", {"tau": "(2.0*tau)"}), ("add", ["d/dt * a = (r - a) / tau"])]), var_updates={"a": "variable(0.0)"},
+                    expected_vars=["r", "tau", "k", "a"]))
+    out.append(dict(tag="E12-add-with-append", eqs=["d/dt * r = -r/tau"], vars={"r": "output(0.1)", "tau": 2.0},
+                    edit=OrderedDict([("add", ["d/dt * a = r - a"]), ("append", "+ k")]), var_updates={"a": "variable(0.0)", "k": 1.0},
+                    expected_vars=["r", "tau", "k", "a"]))
     out.append(dict(tag="E8-two-adds-two-loads", eqs=[E[0]], vars=V, edit={"add": ["d/dt * a = r - a", "d/dt * b = a - b"]},
                     var_updates={"a": "variable(0.0)", "b": "variable(0.0)"}, expected_vars=list(allv | {"a", "b"})))
     return out
